@@ -43,7 +43,7 @@ mod verif_pl_rwlock {
                 use_store(&mut store);
                 let st = state_with([TaskState::Runnable, BLOCKED, BLOCKED], 0, Rc::new(RefCell::new(SpecSched::new())));
                 unsafe { ENV = Some(env_must_not_block) };
-                $body(st);
+                ($body)(st);
                 kani::cover!(true);
             }
         };
